@@ -88,3 +88,22 @@ Theorem C04_loop_between_partial : forall g K v0 strides, geom_ok g -> Forall (s
   forall i, 0 <= i < gS g -> sel v0 i <= sel (vals s') i <= sel v0 (i + gS g).
 Proof. exact loop_between. Qed.
 Print Assumptions C04_loop_between_partial.
+
+(* Full.  The idempotence clause on grids: an output accepted by the checker is the
+   reconstruction of itself under the same mask, and any reconstruction of it equals it. *)
+Theorem C04_recon_check_idempotent : forall seed mask fp R lvl,
+  recon_check seed mask fp R lvl = true ->
+  GridRecon R mask fp R /\
+  forall R2, GridRecon R mask fp R2 ->
+    forall p, inD (zlen seed) (width seed) p = true -> gval R2 p = gval R p.
+Proof. exact recon_check_idempotent. Qed.
+Print Assumptions C04_recon_check_idempotent.
+
+(* Full.  The wrapper's stride table: for every footprint with odd dimensions, every flat stride
+   is an offset within the padding (|da| <= shape0//2, |db| <= shape1//2), which is the premise
+   [Forall (stride_ok g) strides] of C04_loop_safe: current + strides[i] stays in the padded plane. *)
+Theorem C04_prepare_strides_ok : forall image mask fp,
+  Z.odd (zlen fp) = true -> Z.odd (width fp) = true ->
+  Forall (stride_ok (prep_geom (prepare image mask fp))) (p_strides (prepare image mask fp)).
+Proof. exact prepare_strides_ok. Qed.
+Print Assumptions C04_prepare_strides_ok.
